@@ -11,7 +11,9 @@ RULE = (
     "12 characters, ALL k in 0..len, four execution modes. Metamorphic oracle: parse(rule, text, start_pos=k) "
     "must equal parse(rule, text[k:]) with every span shifted by k (same tree; same furthest_pos after "
     "shifting, -1 stays -1), and must not change when the k characters before start_pos are replaced by "
-    "different ones. Non-trivial: k >= 1 and the parse consumed >= 1 character or failed beyond k; distinct "
+    "different ones. Plus 35 fixed position-sensitive shapes (skip-until forms over every ordered list of 1-2 stop "
+    "strings, regex-based terminals, trivia, EOI, the stack) x every text up to 3-4 characters x every k. "
+    "Non-trivial: k >= 1 and the parse consumed >= 1 character or failed beyond k; distinct "
     "by hash of (grammar, mode, rule, text, k)."
 )
 ASSUMPTIONS = ["grammars use no SOI (the statement's precondition); outcomes other than Pairs/PestParsingError "
@@ -75,6 +77,73 @@ def shards(tier: str):
     return [{"idx": i} for i in range(16)]
 
 
+def fixed_shapes():
+    """Deterministic position-sensitive shapes: skip-until forms (every ordered list of 1-2 stop strings from
+    a, b, ab), regex-based terminals, trivia, EOI and the stack - [(rules, alphabet, maxlen)]."""
+    import itertools
+
+    out = []
+    stops_pool = ["a", "b", "ab"]
+    lists = [p for n in (1, 2) for p in itertools.permutations(stops_pool, n)]
+    for stops in lists:
+        inner = ("str", stops[0]) if len(stops) == 1 else ("grp", ("alt", tuple(("str", x) for x in stops)))
+        body = ("grp", ("seq", (("not", inner), ("id", "ANY"))))
+        out.append(([("r", "@", ("seq", (("star", body), ("opt", ("id", "ANY")))))], "abx", 4))
+        out.append(([("r", "", ("seq", (("star", body), ("opt", ("id", "ANY")), ("opt", ("id", "ANY")))))], "abx", 4))
+        out.append(([("r", "", ("alt", (("seq", (("plus", body), ("opt", ("id", "ANY")))), ("id", "ANY"))))], "abx", 4))
+    ws = ("WHITESPACE", "_", ("str", " "))
+    out += [
+        ([("r", "", ("seq", (("star", ("str", "a")), ("opt", ("str", "b"))))), ws], "ab ", 4),
+        ([("r", "", ("plus", ("grp", ("seq", (("str", "a"), ("str", "b")))))), ws], "ab ", 4),
+        ([("r", "", ("seq", (("star", ("id", "i")), ("id", "EOI")))), ("i", "", ("alt", (("str", "a"), ("str", "b")))), ws], "ab ", 4),
+        ([("r", "", ("seq", (("plus", ("id", "ASCII_DIGIT")), ("star", ("id", "LETTER")))))], "1aé", 4),
+        ([("r", "", ("seq", (("ci", "ab"), ("opt", ("id", "ANY")))))], "abAB", 3),
+        ([("r", "", ("seq", (("star", ("alt", (("str", "a"), ("id", "NEWLINE")))), ("id", "EOI"))))], "a\n\r", 4),
+        ([("r", "", ("seq", (("push", ("alt", (("str", "a"), ("str", "b")))), ("star", ("str", "x")), ("id", "POP"))))], "abx", 4),
+        ([("r", "", ("seq", (("alt", (("str", "a"), ("str", "ab"), ("range", "x", "z"))), ("not", ("str", "b")), ("opt", ("id", "ANY")))))], "abx", 3),
+    ]
+    return out
+
+
+def run_fixed_shapes(ctx: Ctx, modes, idx):
+    import itertools
+
+    from pestverif import gprint
+
+    shapes = fixed_shapes()
+    for j, (rules, alphabet, maxlen) in enumerate(shapes):
+        if j % 16 != idx:
+            continue
+        case = {"rules": rules, "text": gprint.grammar_text(rules)}
+        texts = ["".join(p) for n in range(maxlen + 1) for p in itertools.product(alphabet, repeat=n)]
+        calls, meta = [], []
+        for text in texts:
+            for k in range(len(text) + 1):
+                meta.append(("r", text, k))
+                calls.extend(calls_for("r", text, k))
+        ctx.count("fixed_shape_grammars")
+        for side, worker in (("raw", modes.raw), ("opt", modes.opt)):
+            res = worker.call("pestverif.modes:eval_grammar", {"text": case["text"], "calls": calls, "gen": True})
+            if res["load"][0] != "ok":
+                ctx.count("frontend_rejected:" + side)
+                continue
+            for mode, outs in ((side + "-int", res["int"]), (side + "-gen", res["gen"])):
+                if len(outs) != len(calls):
+                    continue
+                for i, (s, text, k) in enumerate(meta):
+                    a, b, c = outs[3 * i : 3 * i + 3]
+                    ctx.evals += 1
+                    cls = compare(a, b, c, k)
+                    if cls == "skip":
+                        continue
+                    if k >= 1 and fullcase.consumed_or_late_failure(a, k):
+                        ctx.nt_extra += 1
+                    if cls is not None:
+                        ctx.violation(f"{mode}:{cls}:fixed-shape", fullcase.make_case(case, s, text, k, mode),
+                                      f"start_pos={k}: {str(a)[:250]}; suffix at 0: {str(b)[:250]}; other prefix: {str(c)[:150]}")
+    ctx.exhaustive.update({"fixed_shape_grammars": len(shapes), "fixed_shapes": "every text up to the length bound x every k"})
+
+
 def run_shard(ctx: Ctx, spec):
     import hypothesis
     from hypothesis import HealthCheck, Phase, settings
@@ -125,6 +194,7 @@ def run_shard(ctx: Ctx, spec):
                 ctx.sample({"grammar": case["text"], "texts": sorted({m[1] for m in meta})[:5], "k": "all 0..len"})
 
         t()
+        run_fixed_shapes(ctx, modes, spec["idx"])
     finally:
         modes.close()
 
